@@ -13,6 +13,7 @@ written are proved on concrete witnesses below (`…_witness`), they are the rep
 import NeoModel.Model.Queue
 import NeoModel.Proofs.QueueChain
 import NeoModel.Proofs.QueueReach
+import NeoModel.Proofs.QueueCounters
 import NeoModel.Model.StateSync
 import NeoModel.Proofs.StateSyncRestore
 namespace NeoModel.Queue
@@ -179,6 +180,20 @@ theorem queue_cleanup_dead (cap h0 : Nat) (hc : 2 ≤ cap) (as : List Act) (n i 
           · split <;> rfl
     exact this _ _
   exact cleanup_dead s.cap n i s.ring s.len (by omega) hi.slot
+
+/-- C20 (queue, what the drift of `len`/`lastQ` can and cannot affect): the queue never reads `len` or
+`lastQ` for a decision. Two runs of the same interleaving started from states that differ only in these two
+fields agree, step for step, on the ring, on `Run`'s position, on the chain and on its whole event log. So
+the drift proved in `queue_len_drift_witness` is confined to what `LastQueued` reports (and, outside the
+model, to what `Server.requestBlocks` does with it); ordering, at-most-once, retention and progress are
+unaffected. -/
+theorem queue_counters_write_only (s t : State) (as : List Act) (h : SameButCounters s t) :
+    SameButCounters (exec s as) (exec t as) :=
+  sameButCounters_exec s t as h
+
+example : SameButCounters (init 4 7) { init 4 7 with len := -3, lastQ := 99 } ∧
+    (exec { init 4 7 with len := -3, lastQ := 99 } [.run, .put (el 8 0) 7, .run, .run, .run, .run]).height = 8 := by
+  refine ⟨⟨rfl, rfl, rfl, rfl, rfl, rfl, rfl, rfl⟩, by decide⟩
 
 /-! ### The code as written violates the property outside calm interleavings (and drifts inside) -/
 
